@@ -273,6 +273,35 @@ class History:
                 tx.append_data(tables.rows(ids))
                 self.open_txs.append((tx, ids))
                 out["ids"] = ids
+            elif kind == "open_tx_sub":
+                # an open transaction that queued two PRE-BUILT files carrying the SAME basename in two
+                # partition directories (data/p=1/part-N.parquet, data/p=2/part-N.parquet)
+                import io as _io
+
+                import pyarrow as pa
+                import pyarrow.parquet as pq
+                from datashard.data_structures import DataFile, FileFormat
+
+                ids = self.fresh_ids(2)
+                dfs = []
+                paths = []
+                for part, one in zip(("p=1", "p=2"), ids):
+                    tbl = pa.Table.from_pylist(tables.rows([one]), schema=pa.schema(
+                        [pa.field("id", pa.int64(), nullable=False), pa.field("v", pa.string())]))
+                    buf = _io.BytesIO()
+                    pq.write_table(tbl, buf)
+                    rel = f"data/{part}/part-{ids[0]}.parquet"
+                    t.storage.makedirs(f"data/{part}")
+                    t.storage.write_file(rel, buf.getvalue())
+                    paths.append(rel)
+                    dfs.append(DataFile(file_path="/" + rel, file_format=FileFormat.PARQUET, partition_values={},
+                                        record_count=1, file_size_in_bytes=len(buf.getvalue())))
+                tx = t.new_transaction().begin()
+                tx.append_files(dfs)
+                self.open_txs.append((tx, ids))
+                tx._verif_prebuilt = paths      # (kept on the object: id() values are recycled)
+                out["ids"] = ids
+                out["prebuilt"] = paths
             elif kind == "commit_tx":
                 if not self.open_txs:
                     out["skipped"] = True
@@ -381,6 +410,7 @@ class History:
         out: Set[str] = set()
         for tx, _ids in self.open_txs:
             out.update(reader.norm(p) for p in tx._written_files)
+            out.update(getattr(tx, "_verif_prebuilt", []))        # pre-built files queued by append_files()
         return out
 
 
@@ -417,6 +447,8 @@ def gen_ops(rng: random.Random, n: int, alphabet: List[str]) -> List[Tuple[Any, 
             ops.append(("age", rng.choice([10, 7200, 100000])))
         elif k == "open_tx":
             ops.append(("open_tx", rng.randint(1, 2)))
+        elif k == "open_tx_sub":
+            ops.append(("open_tx_sub",))
         elif k == "commit_tx":
             ops.append(("commit_tx",))
         elif k == "rollback_tx":
